@@ -18,9 +18,9 @@ const c12Singles = 16 * 3 * 33
 func c12Counts(tier string) (singles, pairs, random int) {
 	s := c12Singles / c12SinglesPerCase
 	if tier == "thorough" {
-		return s, 3000, 40000
+		return s, 20000, 400000
 	}
-	return s, 0, 3000
+	return s, 2000, 40000
 }
 
 func init() {
